@@ -141,6 +141,16 @@ def work(args):
             c = fam.gen(rng, idx, dict(part.get('opts') or {}, tier=tier, seed=seed))
             c.setdefault('meta', {})
             c['idx'] = idx
+            if (part.get('opts') or {}).get('app_packages'):
+                # some of the message acts use a package the application has registered (run_as: msg) instead of the built-in one
+                for sc in c['scenarios']:
+                    ms = []
+                    for m_ in sc.get('models') or []:
+                        parts_ = m_.split('"uses": "acts.core.msg"')
+                        m_ = parts_[0] + ''.join(('"uses": "app.notify"' if rng.random() < 0.6 else '"uses": "acts.core.msg"') + x for x in parts_[1:])
+                        ms.append(m_)
+                    sc['models'] = ms
+                    sc['packages'] = [{'name': 'app.notify', 'run_as': 'msg'}]
             for j, sc in enumerate(c['scenarios']):
                 sc['id'] = f"{prop}-{part['name']}-{seed}-{idx}-{j}"
             cases.append(c)
